@@ -48,14 +48,19 @@ void harness(void) {
 	ND(unsigned char, a_null); ND(unsigned char, b_null); ND(unsigned char, owned);
 	ND(unsigned char, gk);                /* ghost index: which pool cell / node is watched for the frame condition */
 	URI_CHAR wa, wb;
+	ND(unsigned char, shared);            /* both URIs borrow their text from ONE buffer (two URIs parsed from the same string,
+	                                         ranges starting at the same address): the components may alias */
+	const URI_CHAR *bp;
 	VU_INPUT(a);
 	VU_INPUT(b);
-	__CPROVER_assume(vu_shape_ok(&a, a_pool) && vu_shape_ok(&b, b_pool));
+	__CPROVER_assume(shared <= 1);
+	bp = shared ? a_pool : b_pool;
+	__CPROVER_assume(vu_shape_ok(&a, a_pool) && vu_shape_ok(&b, bp));
 	__CPROVER_assume(a_null <= 1 && b_null <= 1 && owned <= 1 && gk < VT);
 	VMM_RESET(0);
 	vu_build(&ua, &a, a_pool, owned);
-	vu_build(&ub, &b, b_pool, owned);
-	sa = ua; sb = ub; wa = a_pool[gk]; wb = b_pool[gk];
+	vu_build(&ub, &b, bp, owned);
+	sa = ua; sb = ub; wa = a_pool[gk]; wb = bp[gk];
 	vu_read(&ua, &va, VM + 1); vu_read(&ub, &vb, VM + 1);
 	if (gk < va.nseg) { pna = va.node[gk]; na = *pna; }
 	if (gk < vb.nseg) { pnb = vb.node[gk]; nb = *pnb; }
@@ -69,8 +74,8 @@ void harness(void) {
 	if (a_null || b_null) {
 		VPOST("C11", (r == URI_TRUE) == (a_null && b_null), "EqualsUri: two NULL arguments are equal, one NULL is not");
 	} else {
-		expect = spec_equal(&a, a_pool, &b, b_pool, 0);
-		expect_noabs = spec_equal(&a, a_pool, &b, b_pool, 1);
+		expect = spec_equal(&a, a_pool, &b, bp, 0);
+		expect_noabs = spec_equal(&a, a_pool, &b, bp, 1);
 		VPOST("C11", !expect || r == URI_TRUE, "EqualsUri: identical components => TRUE");
 		/* known-finding region: everything but the absolute-path flag is identical and a scheme is present */
 		VPOST_KF("C11", KF_C11_ABSPATH_WITH_SCHEME, (expect_noabs && !expect && a.scheme.len >= 0),
@@ -85,6 +90,6 @@ void harness(void) {
 		&& pna->reserved == na.reserved), "EqualsUri leaves every path node of a unchanged (ghost-indexed)");
 	VFRAME("C11,C12,C20", pnb == NULL || (pnb->next == nb.next && pnb->text.first == nb.text.first && pnb->text.afterLast == nb.text.afterLast
 		&& pnb->reserved == nb.reserved), "EqualsUri leaves every path node of b unchanged (ghost-indexed)");
-	VFRAME("C11,C12,C20", a_pool[gk] == wa && b_pool[gk] == wb, "EqualsUri leaves the text unchanged (ghost-indexed)");
+	VFRAME("C11,C12,C20", a_pool[gk] == wa && bp[gk] == wb, "EqualsUri leaves the text unchanged (ghost-indexed)");
 	VFRAME("C11,C13,C20", g_allocs == 0 && g_frees == 0, "EqualsUri neither allocates nor frees");
 }
